@@ -8,14 +8,6 @@ Open Scope Z_scope.
 Notation qthread := (@thread regs qop out).
 
 (** * the finding and its class *)
-Definition ins_of (p : list qop) : list Z := flat_map (fun op => match op with QInsert t => [t] | _ => [] end) p.
-Definition rem_of (p : list qop) : list Z := flat_map (fun op => match op with QRemove t => [t] | _ => [] end) p.
-(** K: some triple is inserted by one thread and removed by a different thread *)
-Definition k_rdf (progs : list (list qop)) : bool :=
-  let n := length progs in
-  existsb (fun i => existsb (fun j => negb (Nat.eqb i j) &&
-     existsb (fun t => zmem t (rem_of (nth j progs []))) (ins_of (nth i progs []))) (seq 0 n)) (seq 0 n).
-
 Lemma rdf_torn_refuted_l :
   exists progs sched, progs = [[QInsert 7]; [QRemove 7]] /\ sched = [0; 0; 1; 1; 1; 1; 0; 0; 0]%nat /\
     k_rdf progs = true /\
